@@ -581,6 +581,11 @@ func (g *ygen) scalar(flow bool, root bool) *YN {
 			n = &YN{Kind: YScalar, Tag: "!!float", Value: "1", Style: "plain", Explicit: true}
 		case 4:
 			n = &YN{Kind: YScalar, Tag: "!thing", Value: "x1", Style: "plain", Explicit: true}
+			if r.IntN(3) == 0 {
+				// a global (URI) tag: not the local tag of the same spelling
+				n.Tag = []string{"tag:example.com,2000:foo", "urn:x-thing", "tag:clarkevans.com,2002:circle"}[r.IntN(3)]
+				g.feat["tag:global"] = true
+			}
 			g.feat["tag:custom"] = true
 		case 5:
 			n = &YN{Kind: YScalar, Tag: "!t2", Value: "q q", Style: "single", Explicit: true}
@@ -818,7 +823,11 @@ func yPropText(n *YN) string {
 		p = append(p, "&"+n.Anchor)
 	}
 	if n.Explicit {
-		p = append(p, n.Tag)
+		if strings.HasPrefix(n.Tag, "!") {
+			p = append(p, n.Tag)
+		} else {
+			p = append(p, "!<"+n.Tag+">") // a global tag, written verbatim
+		}
 	}
 	return strings.Join(p, " ")
 }
